@@ -489,6 +489,19 @@ pub fn probes_for(node: &N, extra: &[String]) -> Vec<String> {
 }
 
 fn respell(n: &N, sel: u8) -> N {
+    // near misses: nodes that are *different* for a correct equality (entries in another order, the
+    // integer / float twin of a number, the text of a value) — if an equality ever equates them,
+    // hashing and the other node types have to follow
+    match n {
+        N::Map(m) if sel & 4 != 0 && m.len() > 1 => return N::Map(m.iter().rev().map(|(k, v)| (respell(k, sel), respell(v, sel))).collect()),
+        N::Int(i) if sel & 8 != 0 && i.unsigned_abs() < (1 << 53) => return N::Float(*i as f64),
+        N::Float(f) if sel & 8 != 0 && f.fract() == 0.0 && f.abs() < 9.0e15 && *f != 0.0 => return N::Int(*f as i64),
+        N::Int(i) if sel & 16 != 0 => return N::Str(i.to_string()),
+        N::Bool(b) if sel & 16 != 0 => return N::Str(b.to_string()),
+        N::Null if sel & 16 != 0 => return N::Str("~".to_string()),
+        N::Str(t) if sel & 16 != 0 => return N::Repr(t.clone()),
+        _ => {}
+    }
     // a node that should compare equal: other NaN payload, other zero sign
     match n {
         N::Float(f) if f.is_nan() => N::Float(f64::from_bits(0x7ff8_0000_0000_0000 | (sel as u64 + 1))),
@@ -521,7 +534,7 @@ impl Property for C20P {
          pool, generated strings and an absent string; model: found(k) iff some key is a resolved string equal to k (last such entry). \
          as_mapping_get, contains_mapping_key, Index<&str> (panic iff absent), as_mapping_get_mut, IndexMut<&str> and get(&String node) \
          must all agree with the model. Sequences and mappings are also indexed with usize from {0, len-1, len, 2^40, usize::MAX}: \
-         node[i] panics iff get finds nothing. (eq/hash) pairs (a, respelling of a | independent small node): a == b => equal hashes \
+         node[i] panics iff get finds nothing. (eq/hash) pairs (a, respelling of a — other NaN payload / zero sign / tag split — | near miss of a — mapping entries reversed, integer / float twin, text of a value, unresolved twin of a string — | independent small node): a == b => equal hashes \
          and mutual map lookup, equality agrees across the four node types. Non-trivial (lookups) = >= 2 keys incl. a non-string key with \
          probe hits and misses; distinct by (node, probes)."
             .into()
